@@ -24,5 +24,5 @@ META = dict(
     assumptions=auction.COMMON_ASSUMPTIONS,
     rule='feasible paths of take_bid/contract from a symbolic state (H1) or along K symbolic calls (H2); distinct = different path conditions',
     explanation='one inductive step of the real take_bid from any invariant state + bounded model checking from the constructor against an explicit-history oracle',
-    required_outcomes=['ONGOING', 'FINISHED', 'constructed'],
+    required_outcomes=[('ONGOING', 'H1 not applicable'), 'FINISHED', 'constructed'],
 )
